@@ -46,6 +46,9 @@ class Controller:
         self.take_w = self.sched.get("take_w") or [1.0] * 16
         self.deliver_w = self.sched.get("deliver_w") or [1.0] * 16
         self.deliver_bias = self.sched.get("deliver_bias", 1.0)
+        # probability that, at a submission point (apply_async / map_async / imap), the handler threads and workers get to run
+        # one more event before the submitting call returns - the parent being pre-empted between two submissions
+        self.eager = self.sched.get("eager", 0.0)
         self.decisions = []  # [pool_no, kind, worker] as taken
         self.pools = []  # per pool stats
         self.fork_fail_at = None  # pool creation number (0-based) that fails with EAGAIN
@@ -370,6 +373,18 @@ class SimPool:
         if set_length:
             idx = task[1] if task else -1
             set_length(idx + 1)
+        self._pending_eager = True
+
+    def _eager(self):
+        """Scheduling point after a submission: with the run's 'eager' probability, events happen before the caller goes on."""
+        if not getattr(self, "_pending_eager", False):
+            return
+        self._pending_eager = False
+        ctl = CTL
+        if ctl.policy == "fifo" or ctl.eager <= 0:
+            return
+        while ctl.rng.random() < ctl.eager and self._state == RUN and self._step():
+            pass
 
     _guarded_task_generation = _REAL_POOL._guarded_task_generation
     _get_tasks = staticmethod(_REAL_POOL._get_tasks)
@@ -393,6 +408,7 @@ class SimPool:
         self._check_running()
         result = SimApplyResult(self, callback, error_callback)
         self._submit([(result._job, 0, func, args, kwds)], None)
+        self._eager()
         return result
 
     def _map_async(self, func, iterable, mapper, chunksize=None, callback=None, error_callback=None):
@@ -408,6 +424,7 @@ class SimPool:
         task_batches = SimPool._get_tasks(func, iterable, chunksize)
         result = SimMapResult(self, chunksize, len(iterable), callback, error_callback)
         self._submit(self._guarded_task_generation(result._job, mapper, task_batches), None)
+        self._eager()
         return result
 
     def imap(self, func, iterable, chunksize=1):
@@ -421,6 +438,7 @@ class SimPool:
         if chunksize == 1:
             result = cls(self)
             self._submit(self._guarded_task_generation(result._job, func, iterable), result._set_length)
+            self._eager()
             return result
         if chunksize < 1:
             raise ValueError(("Chunksize must be 1+, not " + fmt).format(chunksize))
@@ -480,12 +498,41 @@ class SimPool:
         raise NotImplementedError("pool objects cannot be passed between processes or pickled")
 
 
+_ORIG_EVENT_WAIT = threading.Event.wait
+_ORIG_COND_WAIT = threading.Condition.wait
+
+
+def _drive_until(pred):
+    """The main thread is about to block on a synchronisation object of its own (an Event set by a pool callback, a
+    Queue fed by one): in the real pool the handler threads would go on meanwhile, so the simulated dispatcher does."""
+    if threading.current_thread() is not threading.main_thread():
+        return
+    guard = 0
+    while not pred() and guard < 100000:
+        guard += 1
+        progressed = False
+        for pool in list(CTL.live):
+            if pool._state != TERMINATE and pool._step():
+                progressed = True
+                break
+        if not progressed:
+            break
+
+
+def _event_wait(self, timeout=None):
+    if CTL.live and not self.is_set():
+        _drive_until(self.is_set)
+    return _ORIG_EVENT_WAIT(self, timeout)
+
+
 def install():
     _mpp.Pool = SimPool
+    threading.Event.wait = _event_wait
 
 
 def uninstall():
     _mpp.Pool = _REAL_POOL
+    threading.Event.wait = _ORIG_EVENT_WAIT
 
 
 def terminate_all():
